@@ -148,20 +148,36 @@ theorem noscript_refused :
   · intro sig hs hn
     exact ((sigs_noScript_iff sig hs).2 hn)
 
-/-- inside `_run_command(…, from_script=True)`: a forbidden command that passes its argument checks is answered with
-the refusal, its body is never consulted (the right-hand side does not mention `special`), and none of the forbidden
-commands is a regular (database-only) command -/
+/-- inside `_run_command(…, from_script=True)`: the subscriber-mode check comes first (a subscribed connection issuing a
+command outside the allow-list gets the context error and nothing changes); otherwise a forbidden command that passes its
+argument checks is answered with the refusal, its body is never consulted (the right-hand side does not mention
+`special`), and none of the forbidden commands is a regular (database-only) command -/
 theorem noscript_refused_run (special : Special) (mode : Mode) (c : Nat) (sig : Sig) (raw : List Bytes) (s : Sys)
     (hs : sig ∈ SigTable.sigs) (h : sig.noScript = true) :
     runWith special mode c sig raw true s =
+      if s.refuses c sig then (some refusalReply, s) else
       let d := (s.conn c).db
       let o := sig.apply raw ⟨s.srv.dbs.getD d [], s.srv.time⟩
       (some (match o.2 with
         | .error e => .err (strBytes e)
         | .ok (.short r) => r
         | .ok (.ok _ _) => .err (strBytes Msgs.COMMAND_IN_SCRIPT_MSG)),
-       { s with srv := { s.srv with dbs := s.srv.dbs.set d o.1.dict } }) :=
-  runWith_noScript_run special mode c sig raw s h (Option.isNone_iff_eq_none.mp (noScript_not_regular sig hs h))
+       { s with srv := { s.srv with dbs := s.srv.dbs.set d o.1.dict } }) := by
+  cases hr : s.refuses c sig with
+  | true => rw [runWith_refused special mode c sig raw true hr]; rfl
+  | false =>
+    rw [runWith_noScript_run special mode c sig raw s h
+      (Option.isNone_iff_eq_none.mp (noScript_not_regular sig hs h)) hr]
+    rfl
+
+/-- both branches occur: EVAL from a script on an ordinary connection is past the subscriber-mode check, on a
+subscribed connection it is not; SUBSCRIBE is on the allow-list, so only the script refusal applies -/
+example : ∃ (sig : Sig) (s : Sys), SigTable.find "eval" = some sig ∧ sig.noScript = true ∧ s.refuses 7 sig = false :=
+  ⟨_, { srv := { conns := [{ id := 7 }] } }, rfl, rfl, by decide⟩
+example : ∃ (sig : Sig) (s : Sys), SigTable.find "eval" = some sig ∧ sig.noScript = true ∧ s.refuses 7 sig = true :=
+  ⟨_, { srv := { conns := [{ id := 7, pubsub := 1 }] } }, rfl, rfl, by decide⟩
+example : ∃ (sig : Sig) (s : Sys), SigTable.find "subscribe" = some sig ∧ sig.noScript = true ∧ s.refuses 7 sig = false :=
+  ⟨_, { srv := { conns := [{ id := 7, pubsub := 1 }] } }, rfl, rfl, by decide⟩
 
 /-! ## 7. EVAL validates numkeys -/
 
